@@ -181,6 +181,23 @@ func c08R2(c *Ctx, m *frameModel) {
 					if psf, ok := loadedField(side); ok && psf.Is("stackFrame", "parent") && psf.Base == sf.Base {
 						rootOK = true
 					}
+					// the walk keeps `parent` in a variable of its own: P and the frame F are merged in the
+					// same block and on every incoming edge P is the parent of F's value on that edge, so
+					// P == F.parent holds there by induction
+					if P, ok := side.(*ssa.Phi); ok {
+						if Fr, ok := sf.Base.(*ssa.Phi); ok && P.Block() == Fr.Block() && len(P.Edges) == len(Fr.Edges) {
+							lock := true
+							for i := range P.Edges {
+								esf, ok := loadedField(P.Edges[i])
+								if !ok || !esf.Is("stackFrame", "parent") || esf.Base != Fr.Edges[i] {
+									lock = false
+								}
+							}
+							if lock {
+								rootOK = true
+							}
+						}
+					}
 				}
 			}
 			if rootOK {
@@ -277,38 +294,72 @@ func c08R3(c *Ctx, m *frameModel, rule string) {
 		}
 	}
 	c.check(good, rule, "depth-limit-edge", p.InstrPos(ifi), "when the limit is exceeded the primitive returns an error without pushing", "the limit-exceeded edge can push the frame or return nil")
-	// the compared depth is parent.depth + 1
-	depthOK := false
+	// the compared depth is parent.depth + 1 for every frame pushed on another one (0 for the root frame)
 	var depthVal ssa.Value = cmp.X
 	if globalLoaded(cmp.X) == lim {
 		depthVal = cmp.Y
 	}
-	if sf, ok := loadedField(depthVal); ok && sf.Is("stackFrame", "depth") {
-		// find store to that field: must be load(stackTop.depth) + 1
-		for _, s := range storesToField(m.push, "stackFrame", "depth", false) {
-			if b, ok := s.Val.(*ssa.BinOp); ok && b.Op == token.ADD {
-				if one, ok := constInt(b.Y); ok && one == 1 {
-					if psf, ok := loadedField(b.X); ok && psf.Is("stackFrame", "depth") {
-						if tsf, ok := loadedField(psf.Base); ok && tsf.Is("Evaluator", "stackTop") {
-							depthOK = true
-						}
-					}
-				}
-			}
+	isParentDepthPlusOne := func(v ssa.Value) bool {
+		b, ok := v.(*ssa.BinOp)
+		if !ok || b.Op != token.ADD {
+			return false
 		}
+		one, ok := constInt(b.Y)
+		if !ok || one != 1 {
+			return false
+		}
+		psf, ok := loadedField(b.X)
+		if !ok || !psf.Is("stackFrame", "depth") {
+			return false
+		}
+		tsf, ok := loadedField(psf.Base)
+		return ok && tsf.Is("Evaluator", "stackTop")
 	}
-	c.check(depthOK, rule, "depth-is-parent-plus-one", p.InstrPos(cmp), "the tested depth is stackTop.depth + 1", "the tested value is not provably parent depth + 1")
-	// every frame with a parent gets that depth: the store is conditional on `stackTop != nil` only
-	for _, s := range storesToField(m.push, "stackFrame", "depth", false) {
+	onlyStackTopNonNil := func(fs factSet) []string {
 		var extra []string
-		for _, rl := range FactsOf(m.push).At(s.Block()).Rels() {
+		for _, rl := range fs.Rels() {
 			if sf, ok := loadedField(rl.x); ok && sf.Is("Evaluator", "stackTop") && isNilConst(rl.y) && rl.op == relNE {
 				continue
 			}
 			extra = append(extra, p.RenderShort(rl.x)+" "+rl.op.String()+" "+p.RenderShort(rl.y))
 		}
-		c.check(len(extra) == 0, rule, "depth-for-every-frame", p.InstrPos(s), "every frame pushed on top of another one is one deeper than it", "the depth of a new frame is only set under {"+strings.Join(extra, " ; ")+"}: frames of the other kind restart at depth 0, so recursion through them is never stopped by the limit (the Go stack overflows instead)")
+		return extra
 	}
+	depthOK := false
+	var extra []string
+	everyFramePos := p.InstrPos(cmp)
+	if sf, ok := loadedField(depthVal); ok && sf.Is("stackFrame", "depth") {
+		// form 1: the new frame's depth field, set by a conditional store
+		for _, s := range storesToField(m.push, "stackFrame", "depth", false) {
+			if isParentDepthPlusOne(s.Val) {
+				depthOK = true
+				extra = onlyStackTopNonNil(FactsOf(m.push).At(s.Block()))
+				everyFramePos = p.InstrPos(s)
+			}
+		}
+	} else if phi, ok := depthVal.(*ssa.Phi); ok {
+		// form 2: a local `depth` = 0, or parent.depth + 1 when there is a parent; stored into the new frame
+		okForm := len(phi.Edges) == 2
+		for i, e := range phi.Edges {
+			switch {
+			case isParentDepthPlusOne(e):
+				extra = append(extra, onlyStackTopNonNil(FactsOf(m.push).OnEdge(phi.Block().Preds[i], phi.Block()))...)
+			default:
+				if k, isC := constInt(e); !isC || k != 0 {
+					okForm = false
+				}
+			}
+		}
+		stored := false
+		for _, s := range storesToField(m.push, "stackFrame", "depth", false) {
+			if s.Val == ssa.Value(phi) {
+				stored = true
+			}
+		}
+		depthOK = okForm && stored
+	}
+	c.check(depthOK, rule, "depth-is-parent-plus-one", p.InstrPos(cmp), "the tested depth is stackTop.depth + 1", "the tested value is not provably parent depth + 1")
+	c.check(depthOK && len(extra) == 0, rule, "depth-for-every-frame", everyFramePos, "every frame pushed on top of another one is one deeper than it", "the depth of a new frame is only set under {"+strings.Join(extra, " ; ")+"}: frames of the other kind restart at depth 0, so recursion through them is never stopped by the limit (the Go stack overflows instead)")
 }
 
 func limitGlobal(p *Program, name string) *ssa.Global {
